@@ -499,6 +499,55 @@ func (c *c12T) checkRekeyRoot(t ev.TB, r *ev.Rec, what string, i int, newkey str
 
 	r.Class("rekey-root", 1)
 
+	// the same edit made on nodes that already carry hashes: the tree is rebuilt through a new Writer from Tree.Node(i)
+	// (hashed) with only node i replaced. The writer has to commit to the new key all the same.
+	for _, carry := range []bool{false, true} {
+		w, err := fixedtree.NewWriter(c12Hint, uint64(len(keys)))
+		if err != nil {
+			t.Fatalf("writer: %v", err)
+		}
+
+		for j := range keys {
+			var nd fixedtree.Node = c.tr.Node(uint64(j))
+
+			if j == i {
+				nn := fixedtree.NewBaseNode(newkey)
+				if carry {
+					nd = nn.SetHash(c.tr.Node(uint64(j)).Hash())
+				} else {
+					nd = nn
+				}
+			}
+
+			if err := w.Add(uint64(j), nd); err != nil {
+				r.Violation(t, "writer-failed", "%s: re-adding hashed node %d failed: %v", what, j, err)
+
+				return nil
+			}
+		}
+
+		tr2, err := w.Tree()
+		if err != nil {
+			r.Violation(t, "writer-failed", "%s: rebuilding from hashed nodes with key %d replaced failed: %v", what, i, err)
+
+			return nil
+		}
+
+		want := c12ModelHashes(keys)
+
+		switch {
+		case tr2.Root().Equal(c.tr.Root()):
+			r.Violation(t, "root-unchanged-after-key-change-rehashed-nodes", "%s: a tree rebuilt from already hashed nodes with key %d replaced (%q -> %q, carried hash: %v) keeps the old root %v",
+				what, i, c.keys[i], newkey, carry, tr2.Root())
+		case !bytes.Equal(tr2.Root().Bytes(), want[0][:]):
+			r.Violation(t, "root-differs-from-spec-rehashed-nodes", "%s: a tree rebuilt from already hashed nodes with key %d replaced has a root that is not the specified one", what, i)
+		case tr2.IsValid(nil) != nil:
+			r.Violation(t, "valid-tree-rejected", "%s: a tree rebuilt from already hashed nodes is rejected: %v", what, tr2.IsValid(nil))
+		}
+
+		r.Class("rekey-root-rehashed", 1)
+	}
+
 	b := &c12T{keys: keys, hs: c12ModelHashes(keys), keyset: map[string]struct{}{}, tr: tr}
 	for _, k := range keys {
 		b.keyset[k] = struct{}{}
